@@ -391,7 +391,7 @@ fn ins_plane(rep: &Report, states_per_form: usize, core: bool, seed: u64) {
                 Ins::Un(op, ..) => op.name(),
                 _ => "?",
             };
-            let out = check_ins(&mut b, &ins, &line, &pre, &mut agg, core, "C01 instruction plane", &|c| format!("ins:{}:{}", mn, c));
+            let out = check_ins(&mut b, &ins, &line, &pre, &mut agg, core, "C01 instruction plane", &|c| Some(format!("ins:{}:{}", mn, c)));
             loc.evals += 1;
             loc.distinct.insert(fnv64(format!("{}|{}", ins.class(), out.alt).as_bytes()));
             if j == 0 && loc.evals == 1 {
@@ -462,7 +462,7 @@ fn source_plane(rep: &Report, per_form: usize, core: bool, seed: u64) {
                 loc.counters.entry("emitted lines rejected by the interpreter (filed under C10)").and_modify(|x| *x += 1).or_insert(1);
                 continue;
             }
-            let out = check_ins(&mut b, &ins, &a.code[0], &pre, &mut agg, core, "C01 source plane", &|c| format!("src:{}:{}", mn, c));
+            let out = check_ins(&mut b, &ins, &a.code[0], &pre, &mut agg, core, "C01 source plane", &|c| Some(format!("src:{}:{}", mn, c)));
             loc.evals += 1;
             loc.distinct.insert(fnv64(format!("src|{}|{}", ins.class(), out.alt).as_bytes()));
             if j == 3 && it == 1 {
